@@ -1,8 +1,133 @@
-(* C05 — Bindings are isolated: immutable means unchanged, failures change nothing. *)
-From Coq Require Import List String.
+(* C05 — Bindings are isolated: immutable means unchanged, failures change nothing.
+   Property theorems only; proofs live in Proofs/StoreP.v, definitions in Model/Store.v.
+
+   Reading guide.  A symbol table is an association list name -> (mutable?, deep value); [find] looks a name
+   up.  [step_ok T st ok T'] (Proofs/StoreP.v, four rules) is the property for ONE statement: from table T,
+   statement st with outcome ok (true) / error (false) leads to table T'.  [trace_ok T tr] chains it over a
+   history tr = [(statement, outcome, table after it); ...].  The judge checks [trace_ok] on the tables the
+   real interpreter shows after every statement (theorem 7), [exec]/[impl_trace] is the heap model of what
+   mech does (cells shared by cloning), theorems 8a-8f show that this model breaks the property on six classes
+   of histories and theorem 9 that it satisfies it on every history outside them. *)
+From Coq Require Import List ZArith String.
 From MechV Require Import Base.Sexp Base.Obs Model.Store Proofs.StoreP.
 Import ListNotations.
+Open Scope string_scope.
 
-Theorem C05_failure_frame : forall T st T', step_okb T st false T' = true -> frameb [] T T' = true.
-Proof. exact step_err_frame. Qed.
-Print Assumptions C05_failure_frame.
+(* 1. The decision procedure the judge runs is the property. *)
+Theorem C05_step_reflect : forall (T : tab) (st : stmt) (ok : bool) (T' : tab),
+  step_okb T st ok T' = true <-> step_ok T st ok T'.
+Proof. exact step_okb_ok. Qed.
+Print Assumptions C05_step_reflect.
+
+(* 2. Immutable means unchanged: a binding made without ~ has the same value after every later statement of
+      every history that satisfies the property step by step (valid or invalid statements, any number). *)
+Theorem C05_isolation_immutable : forall (T : tab) (tr : list tstep) (x : string) (v : dv),
+  trace_ok T tr -> find x T = Some (false, v) ->
+  Forall (fun T' => find x T' = Some (false, v)) (states tr).
+Proof. exact immutable_forever. Qed.
+Print Assumptions C05_isolation_immutable.
+
+(* 3. ... and that value is the one its right-hand side had when `x := e` ran. *)
+Theorem C05_defined_value_kept : forall (T : tab) (x : string) (e : expr) (T1 : tab) (tr : list tstep) (v : dv),
+  trace_ok T ((SDef false x e, true, T1) :: tr) -> seval T e = Some v ->
+  Forall (fun T' => find x T' = Some (false, v)) (T1 :: states tr).
+Proof. exact defined_value_forever. Qed.
+Print Assumptions C05_defined_value_kept.
+
+(* 4. Assigning to or through x (whole, indexed, op-assign, field, tuple element) changes nothing seen through
+      any other name, defines and removes no name, and needs x to be mutable before and after. *)
+Theorem C05_isolation_assign : forall (T : tab) (st : stmt) (T' : tab) (x : string),
+  step_ok T st true T' -> assign_target st = Some x ->
+  (forall n, n <> x -> find n T' = find n T) /\
+  (forall n, find n T' = None <-> find n T = None) /\
+  (exists v0 v1, find x T = Some (true, v0) /\ find x T' = Some (true, v1)).
+Proof. exact assign_only_target. Qed.
+Print Assumptions C05_isolation_assign.
+
+(* 5. A statement that fails leaves every binding and the set of names exactly as before. *)
+Theorem C05_failure_atomic : forall (T : tab) (st : stmt) (T' : tab),
+  step_ok T st false T' -> forall n, find n T' = find n T.
+Proof. exact failure_atomic. Qed.
+Print Assumptions C05_failure_atomic.
+
+(* 6. Redefining a name (by := or by a destructure), assigning to an undefined name or to an immutable one
+      cannot succeed. *)
+Theorem C05_errors : forall (T : tab) (st : stmt) (ok : bool) (T' : tab),
+  step_ok T st ok T' -> must_fail T st -> ok = false.
+Proof. exact errors_rejected. Qed.
+Print Assumptions C05_errors.
+
+(* 7. The judge is sound: `ok` means the observed session satisfies the property at every step (so 2-6 apply
+      to what the interpreter really did). *)
+Theorem C05_judge_sound : forall (h : list stmt) (os : list ostep) (tag : string),
+  judge_hist h os = v_ok tag -> trace_ok [] (obs_trace h os).
+Proof. exact judge_hist_sound. Qed.
+Print Assumptions C05_judge_sound.
+
+(* 8. The faithful heap model of mech violates the property; one witness per class of the judge
+      ([refutes id h]: the model's trace of h is not property-conforming and its failing step is classified id). *)
+Theorem C05_refuted_alias_define :          (* a := 1 ; ~b := a ; b = 5          => a is 5 *)
+  ~ trace_ok [] (impl_trace cfg_cur store0 w_alias_define) /\
+  classes cfg_cur store0 [] w_alias_define (model_obs cfg_cur w_alias_define) = Some ["alias-define"].
+Proof. exact refuted_alias_define. Qed.
+Print Assumptions C05_refuted_alias_define.
+
+Theorem C05_refuted_alias_literal :         (* ~a := 1 ; t := (a, 2) ; a = 5     => t is (5, 2) *)
+  ~ trace_ok [] (impl_trace cfg_cur store0 w_alias_literal) /\
+  classes cfg_cur store0 [] w_alias_literal (model_obs cfg_cur w_alias_literal) = Some ["alias-literal"].
+Proof. exact refuted_alias_literal. Qed.
+Print Assumptions C05_refuted_alias_literal.
+
+Theorem C05_refuted_destructure_mutable :   (* (p, q) := (1, 2)                  => p, q mutable *)
+  ~ trace_ok [] (impl_trace cfg_cur store0 w_destructure_mutable) /\
+  classes cfg_cur store0 [] w_destructure_mutable (model_obs cfg_cur w_destructure_mutable) = Some ["destructure-mutable"].
+Proof. exact refuted_destructure_mutable. Qed.
+Print Assumptions C05_refuted_destructure_mutable.
+
+Theorem C05_refuted_destructure_partial :   (* a := 1 ; (p, a) := (1, 2)         => error, p defined *)
+  ~ trace_ok [] (impl_trace cfg_cur store0 w_destructure_partial) /\
+  classes cfg_cur store0 [] w_destructure_partial (model_obs cfg_cur w_destructure_partial) = Some ["destructure-partial"].
+Proof. exact refuted_destructure_partial. Qed.
+Print Assumptions C05_refuted_destructure_partial.
+
+Theorem C05_refuted_table_column_partial :  (* ~t := |fa| 1 | 2 | ; t.fa = [5;6;7] => error, column 5 6 *)
+  ~ trace_ok [] (impl_trace cfg_cur store0 w_table_column_partial) /\
+  classes cfg_cur store0 [] w_table_column_partial (model_obs cfg_cur w_table_column_partial) = Some ["table-column-partial"].
+Proof. exact refuted_table_column_partial. Qed.
+Print Assumptions C05_refuted_table_column_partial.
+
+Theorem C05_refuted_alias_destructure :     (* t := (1, 2) ; (p, q) := t ; p = 5 => t is (5, 2) *)
+  ~ trace_ok [] (impl_trace cfg_cur store0 w_alias_destructure) /\
+  classes cfg_cur store0 [] w_alias_destructure (model_obs cfg_cur w_alias_destructure)
+    = Some ["destructure-mutable"; "alias-destructure"].
+Proof. exact refuted_alias_destructure. Qed.
+Print Assumptions C05_refuted_alias_destructure.
+
+(* 9. Outside the classes the model satisfies the property, for every history: no variable on the right of a
+      definition (so nothing is shared), no destructure, no over-long table column (no kernel failing after
+      it wrote).  All other statements are unrestricted: valid or invalid assignments of every form, with
+      variables on their right-hand sides, redefinitions, undefined and immutable targets ... *)
+Theorem C05_holds : forall h : list stmt,
+  Forall safe_stmt h -> no_partial cfg_cur store0 h = true ->
+  trace_ok [] (impl_trace cfg_cur store0 h).
+Proof. exact holds_class_free. Qed.
+Print Assumptions C05_holds.
+
+(* non-vacuity: a class-free history with successful and failing statements of most forms; the model's
+   trace conforms, ends with x = 7, m = [1 9; 3 4] and r.fa = 3, and contains errors *)
+Example C05_example :
+  let h := [SDef true "x" (ENum (dz 4)); SDef false "y" (ENum (dz 1)); SOp "x" OAdd (EVar "y");
+            SAssign "y" (ENum (dz 2)); SDef false "x" (ENum (dz 0)); SOp "x" OAdd (ENum (dz 2));
+            SDef true "m" (EMat 2 2 [dz 1; dz 3; dz 2; dz 4]); SIdx2 "m" 1 2 (dz 9); SIdx1 "m" 7 (dz 9);
+            SDef true "r" (ERec [("fa", ANum (dz 1)); ("fb", AMat 1 2 [dz 1; dz 2])]); SField "r" "fa" (ENum (dz 3));
+            SAssign "z" (ENum (dz 1))] in
+  Forall safe_stmt h /\ no_partial cfg_cur store0 h = true /\
+  map (fun t => snd (fst t)) (impl_trace cfg_cur store0 h)
+    = [true; true; true; false; false; true; true; true; false; true; true; false] /\
+  last (states (impl_trace cfg_cur store0 h)) [] =
+    [("x", (true, DNum (dz 7))); ("y", (false, DNum (dz 1))); ("m", (true, DMat 2 2 [dz 1; dz 3; dz 9; dz 4]));
+     ("r", (true, DRec [("fa", DNum (dz 3)); ("fb", DMat 1 2 [dz 1; dz 2])]))].
+Proof.
+  cbv zeta. split; [repeat constructor|]. split; [vm_compute; reflexivity|]. split; vm_compute; reflexivity.
+Qed.
+Print Assumptions C05_example.
